@@ -242,9 +242,11 @@ class MemTransport(asyncio.Transport):
     def write(self, data):
         if self._closing:
             return
-        if self.fail_writes or (self.peer is not None and self.peer._closing):
+        if self.fail_writes:
             self._loop.call_soon(self._lost, ConnectionResetError("Connection reset by peer (mem)"))
             return
+        if self.peer is not None and self.peer._closing:
+            return      # like the first TCP write after the peer has gone: accepted locally, never delivered
         self._peer_reader.feed_data(bytes(data))
 
     def _lost(self, exc):
@@ -368,6 +370,7 @@ class ScriptedSim(mosaik_api_v3.Simulator):
         self.time = None
         self.nreq = 0            # request index (setup_done, step, get_data) for fault injection
         self.in_hash = 0
+        self.ctl = CTL           # the controller of the run this simulator belongs to
 
     # -- lifecycle
     def init(self, sid, time_resolution=1.0, spec=None, **kw):
@@ -380,7 +383,7 @@ class ScriptedSim(mosaik_api_v3.Simulator):
         self.meta = {"api_version": "3.0", "type": typ, "models": {"M": desc}}
         if self.spec.get("set_events"):
             self.meta["set_events"] = True
-        CTL.ev("init", sid, time_resolution)
+        self.ctl.ev("init", sid, time_resolution)
         return self.meta
 
     def create(self, num, model, **params):
@@ -393,8 +396,8 @@ class ScriptedSim(mosaik_api_v3.Simulator):
         self.nreq += 1
         if not f or f["req"] != idx:
             return None
-        CTL.ev("fault", self.sid, idx, f["kind"], kind_of_request)
-        CTL.fault_fired = (self.sid, idx, f["kind"], kind_of_request)
+        self.ctl.ev("fault", self.sid, idx, f["kind"], kind_of_request)
+        self.ctl.fault_fired = (self.sid, idx, f["kind"], kind_of_request)
         return f["kind"]
 
     def _do_fault(self, kind):
@@ -411,11 +414,11 @@ class ScriptedSim(mosaik_api_v3.Simulator):
         raise InjectedFault(f"injected failure in {self.sid}")
 
     def setup_done(self):
-        CTL.ev("setup_done", self.sid)
+        self.ctl.ev("setup_done", self.sid)
         fk = self._fault("setup_done")
         if fk:
             self._do_fault(fk)
-        yield CTL.gate(self.sid, "setup")
+        yield self.ctl.gate(self.sid, "setup")
         return None
 
     # -- behaviour
@@ -434,15 +437,15 @@ class ScriptedSim(mosaik_api_v3.Simulator):
         snap = snapshot(inputs)
         if self.beh.get("sensitive"):
             self.in_hash = stable_hash([self.in_hash, time, snap])
-        CTL.ev("step_begin", self.sid, time, snap, max_advance)
+        self.ctl.ev("step_begin", self.sid, time, snap, max_advance)
         fk = self._fault("step")
         if fk:
             self._do_fault(fk)
         for act in self.beh.get("async", {}).get(str(k), []):
             yield from self._async_action(act, k)
-        yield CTL.gate(self.sid, "step", self._cyc("dur", k, 0.0))
+        yield self.ctl.gate(self.sid, "step", self._cyc("dur", k, 0.0))
         nxt = self._next(time, k)
-        CTL.ev("step_end", self.sid, nxt)
+        self.ctl.ev("step_end", self.sid, nxt)
         return nxt
 
     def _next(self, time, k):
@@ -463,45 +466,45 @@ class ScriptedSim(mosaik_api_v3.Simulator):
             src_full = f"{self.sid}.e0"
             val = f"set:{self.sid}#{k}:{attr}"
             payload = {src_full: {dst_full: {attr: val}}}
-            CTL.ev("async_set", self.sid, payload)
+            self.ctl.ev("async_set", self.sid, payload)
             try:
                 yield self.mosaik.set_data(payload)
-                CTL.ev("async_set_ok", self.sid)
+                self.ctl.ev("async_set_ok", self.sid)
             except Exception as e:  # noqa
-                CTL.ev("async_err", self.sid, "set_data", type(e).__name__, str(e)[:200],
+                self.ctl.ev("async_err", self.sid, "set_data", type(e).__name__, str(e)[:200],
                        getattr(e, "remote_type", None))
                 if act[-1] != "catch" and self.beh.get("reraise", True):
                     raise
         elif kind == "get":
             _, src_full, attr = act
-            CTL.ev("async_get", self.sid, {src_full: [attr]})
+            self.ctl.ev("async_get", self.sid, {src_full: [attr]})
             try:
                 res = yield self.mosaik.get_data({src_full: [attr]})
-                CTL.ev("async_get_ok", self.sid, snapshot(res))
+                self.ctl.ev("async_get_ok", self.sid, snapshot(res))
             except Exception as e:  # noqa
-                CTL.ev("async_err", self.sid, "get_data", type(e).__name__, str(e)[:200],
+                self.ctl.ev("async_err", self.sid, "get_data", type(e).__name__, str(e)[:200],
                        getattr(e, "remote_type", None))
                 if self.beh.get("reraise", True):
                     raise
         elif kind == "event":
             _, t = act
-            CTL.ev("set_event", self.sid, t)
+            self.ctl.ev("set_event", self.sid, t)
             try:
                 yield self.mosaik.set_event(t)
-                CTL.ev("set_event_ok", self.sid, t)
+                self.ctl.ev("set_event_ok", self.sid, t)
             except Exception as e:  # noqa
-                CTL.ev("async_err", self.sid, "set_event", type(e).__name__, str(e)[:200],
+                self.ctl.ev("async_err", self.sid, "set_event", type(e).__name__, str(e)[:200],
                        getattr(e, "remote_type", None))
                 if self.beh.get("reraise", True):
                     raise
 
     def get_data(self, outputs):
         k = self.k - 1
-        CTL.ev("get_begin", self.sid, snapshot(outputs))
+        self.ctl.ev("get_begin", self.sid, snapshot(outputs))
         fk = self._fault("get_data")
         if fk:
             self._do_fault(fk)
-        yield CTL.gate(self.sid, "get", self._cyc("gdur", k, 0.0))
+        yield self.ctl.gate(self.sid, "get", self._cyc("gdur", k, 0.0))
         data = {}
         has_po = False
         emit = self._cyc("emit", k, 3)
@@ -524,12 +527,12 @@ class ScriptedSim(mosaik_api_v3.Simulator):
             data["time"] = eval_bad(bad, self.time)
         elif fut and not has_po:
             data["time"] = self.time + fut
-        CTL.ev("get_end", self.sid, snapshot(data))
+        self.ctl.ev("get_end", self.sid, snapshot(data))
         return data
 
     def finalize(self):
-        if CTL is not None:
-            CTL.trace.append(("finalize", self.sid))
+        if self.ctl is not None and self.ctl.mode != "off":
+            self.ctl.trace.append(("finalize", self.sid))
 
 
 def eval_bad(bad, time):
@@ -572,6 +575,8 @@ class Result:
         self.shutdown_hang = False
         self.virtual_elapsed = 0.0
         self.open_transports = 0
+        self.held = []
+        self.leftover_names = []
 
     def steps(self, sid=None):
         return [e for e in self.trace if e[0] == "step_begin" and (sid is None or e[1] == sid)]
@@ -725,11 +730,13 @@ def run_case(case, keep_world=False):
         if wopt.get("debug") and hasattr(world, "execution_graph"):
             res.exec_nodes = sorted([n[0], list(n[1].tiers)] for n in world.execution_graph.nodes)
         try:
-            res.leftover_tasks = len([t for t in asyncio.all_tasks(loop) if not t.done()
-                                      and t not in ctl.sim_tasks])
+            left = [t for t in asyncio.all_tasks(loop) if not t.done() and t not in ctl.sim_tasks]
+            res.leftover_tasks = len(left)
+            res.leftover_names = sorted(t.get_name() for t in left)
         except Exception:  # noqa
             res.leftover_tasks = -1
         res.open_transports = sum(1 for ta, tb in ctl.transports if not ta.is_closing())
+        res.held = sorted({g.sid for g in ctl.pending})
         return res
     finally:
         ctl.mode = "off"
@@ -750,12 +757,16 @@ def run_case(case, keep_world=False):
                 for g in ctl.pending:
                     if not g.fut.done():
                         g.fut.cancel()
-                for t in asyncio.all_tasks(loop):
-                    t.cancel()
-                try:
-                    loop.run_until_complete(asyncio.sleep(0))
-                except BaseException:  # noqa
-                    pass
+                for _ in range(5):
+                    tasks = [t for t in asyncio.all_tasks(loop) if not t.done()]
+                    if not tasks:
+                        break
+                    for t in tasks:
+                        t.cancel()
+                    try:
+                        loop.run_until_complete(asyncio.gather(*tasks, return_exceptions=True))
+                    except BaseException:  # noqa
+                        pass
                 loop.close()
         except BaseException:  # noqa
             pass
